@@ -66,7 +66,12 @@ def make_case(rng, kind):
         case = gi.random_case(rng, positions=sorted(set(pos)), n_types=rng.choice([1, 2]), gap_model=rng.choice(['flow', 'no_flow']),
                               length=0.1, flow_range=(1.0, 5.0), const_props=False, type_kw=dict(n_ring=rng.choice([2, 3]), n_duct=1))
         case['core']['coolant_material'] = rng.choice(['sodium', 'nak'])
-        case['setup']['param_update_tol'] = rng.choice([0.01, 0.01, 0.002])
+        case['setup']['param_update_tol'] = rng.choice([0.01, 0.01, 0.002, 0.05])
+        if rng.random() < 0.6:
+            # the same problem written in Celsius or Fahrenheit: the material objects of the parsed input are set up before the
+            # unit conversion - the state a first Reactor finds them in must be the state it leaves them in
+            from harness.checks import c17
+            case = c17.to_units(case, 'm', rng.choice(['C', 'F']), 'kg/s')
         return case
     t = case['types']['t0']
     if rng.random() < 0.5:
